@@ -97,7 +97,12 @@ func (g *gen) blockLines(b *blk, c sctx) []line {
 		return out
 	case kATX:
 		ind := g.indent(c)
-		l := ind + strings.Repeat("#", b.level) + g.spaces(1, 3) + strings.ReplaceAll(strings.Join(g.inlineLines(b.inl), " "), "\x00", "")
+		l := ind + strings.Repeat("#", b.level)
+		if len(b.inl) > 0 {
+			l += g.spaces(1, 3) + strings.ReplaceAll(strings.Join(g.inlineLines(b.inl), " "), "\x00", "")
+		} else {
+			l += g.trailing()
+		}
 		if b.closing {
 			l += g.spaces(1, 2) + strings.Repeat("#", 1+b.level%3) + g.trailing()
 		}
@@ -151,6 +156,9 @@ func (g *gen) blockLines(b *blk, c sctx) []line {
 			closeInd = strings.Repeat(" ", g.r.Range(0, 3))
 			extra = strings.Repeat(string(b.fenceCh), g.r.Range(0, 2))
 			g.f("spelling:closing-fence-variation")
+		}
+		if b.unclosed {
+			return out
 		}
 		return append(out, line{text: closeInd + f + extra + g.trailing(), sp: len(closeInd)})
 	case kIndented:
